@@ -54,7 +54,39 @@ const DETERMINISTIC_RANDOM_STATE: RandomState = unsafe { std::mem::transmute((0u
 #[derive(Clone, Debug, Serialize, Deserialize)]
 #[serde(bound(serialize = "K: Eq + Serialize, V: Serialize"))]
 #[serde(bound(deserialize = "K: Eq + Hash + Deserialize<'de>, V: Deserialize<'de>"))]
-pub struct HashMap<K, V>(StdHashMap<K, V, RandomState>);
+pub struct HashMap<K, V>(#[serde(deserialize_with = "deserialize_std_map")] StdHashMap<K, V, RandomState>);
+
+/// Deserializes the inner map of [`HashMap`] with [`DETERMINISTIC_RANDOM_STATE`] as its hasher.
+///
+/// serde's own impl for `std::collections::HashMap<K, V, S>` creates the map with `S::default()`, which for
+/// [`RandomState`] means fresh random keys. The entries are inserted in the order in which they appear in
+/// the input, so the iteration order of the result is a function of the input alone.
+fn deserialize_std_map<'de, D, K, V>(deserializer: D) -> Result<StdHashMap<K, V, RandomState>, D::Error>
+where
+    D: serde::Deserializer<'de>,
+    K: Eq + Hash + Deserialize<'de>,
+    V: Deserialize<'de>,
+{
+    struct MapVisitor<K, V>(std::marker::PhantomData<(K, V)>);
+
+    impl<'de, K: Eq + Hash + Deserialize<'de>, V: Deserialize<'de>> serde::de::Visitor<'de> for MapVisitor<K, V> {
+        type Value = StdHashMap<K, V, RandomState>;
+
+        fn expecting(&self, formatter: &mut std::fmt::Formatter<'_>) -> std::fmt::Result {
+            formatter.write_str("a map")
+        }
+
+        fn visit_map<A: serde::de::MapAccess<'de>>(self, mut access: A) -> Result<Self::Value, A::Error> {
+            let mut map = StdHashMap::with_hasher(DETERMINISTIC_RANDOM_STATE);
+            while let Some((key, value)) = access.next_entry()? {
+                map.insert(key, value);
+            }
+            Ok(map)
+        }
+    }
+
+    deserializer.deserialize_map(MapVisitor(std::marker::PhantomData))
+}
 
 impl<K, V> HashMap<K, V> {
     pub fn new() -> Self {
@@ -181,7 +213,35 @@ impl<K: UnwindSafe, V: UnwindSafe> UnwindSafe for HashMap<K, V> {}
 #[derive(Clone, Debug, Serialize, Deserialize)]
 #[serde(bound(serialize = "T: Eq + Serialize"))]
 #[serde(bound(deserialize = "T: Eq + Hash + Deserialize<'de>"))]
-pub struct HashSet<T>(StdHashSet<T, RandomState>);
+pub struct HashSet<T>(#[serde(deserialize_with = "deserialize_std_set")] StdHashSet<T, RandomState>);
+
+/// Deserializes the inner set of [`HashSet`] with [`DETERMINISTIC_RANDOM_STATE`] as its hasher
+/// (see [`deserialize_std_map`]).
+fn deserialize_std_set<'de, D, T>(deserializer: D) -> Result<StdHashSet<T, RandomState>, D::Error>
+where
+    D: serde::Deserializer<'de>,
+    T: Eq + Hash + Deserialize<'de>,
+{
+    struct SetVisitor<T>(std::marker::PhantomData<T>);
+
+    impl<'de, T: Eq + Hash + Deserialize<'de>> serde::de::Visitor<'de> for SetVisitor<T> {
+        type Value = StdHashSet<T, RandomState>;
+
+        fn expecting(&self, formatter: &mut std::fmt::Formatter<'_>) -> std::fmt::Result {
+            formatter.write_str("a sequence")
+        }
+
+        fn visit_seq<A: serde::de::SeqAccess<'de>>(self, mut access: A) -> Result<Self::Value, A::Error> {
+            let mut set = StdHashSet::with_hasher(DETERMINISTIC_RANDOM_STATE);
+            while let Some(value) = access.next_element()? {
+                set.insert(value);
+            }
+            Ok(set)
+        }
+    }
+
+    deserializer.deserialize_seq(SetVisitor(std::marker::PhantomData))
+}
 
 impl<T> HashSet<T> {
     pub fn new() -> Self {
